@@ -27,14 +27,18 @@ def gen(tier, rng, scale):
         ops = []
         nproc = rng.range(1, 4)
         nlib = rng.range(0, 3)
+        symtab = {}
+        pmaps = {}
         for l in range(nlib):
             ops.append(["L", "lib%d" % l])
             if rng.chance(1, 2):
                 syms = []
+                symtab[l] = []
                 a = rng.below(0x400)
                 for k in range(rng.range(1, 6)):
                     size = rng.choice([0, 16, 64, 0x300, 0x1000])
                     syms.append("%d:%d:sym%d_%d" % (a, size, l, k))
+                    symtab[l].append((a, size))
                     a += rng.choice([16, 0x100, 0x800, 0x2000])
                 ops.append(["Y", l] + syms)
         procs = []
@@ -48,7 +52,9 @@ def gen(tier, rng, scale):
             base = 0x10000 * (p + 1)
             for l in range(nlib):
                 if rng.chance(2, 3):
-                    ops.append(["M", p, l, base + 0x1000 * (2 * l), base + 0x1000 * (2 * l + 1), rng.choice([0, 0x100, 0x2000])])
+                    m = [p, l, base + 0x1000 * (2 * l), base + 0x1000 * (2 * l + 1), rng.choice([0, 0x100, 0x2000])]
+                    ops.append(["M"] + m)
+                    pmaps.setdefault(p, []).append(m[1:])
         # threads are registered in arbitrary order relative to other processes' threads
         plan = []
         for p in range(nproc):
@@ -68,6 +74,14 @@ def gen(tier, rng, scale):
             base = 0x10000 * (p + 1)
             for _ in range(4):
                 frames_pool.append(rng.choice("ar") + "%x" % (base + rng.below(0x6000)))
+            # addresses aimed at symbols of mapped libraries: start, inside, last byte, one past the end
+            for (l, st, en, rel) in pmaps.get(p, []):
+                for (a, size) in symtab.get(l, []):
+                    for target in (a, a + (size or 8) // 2, a + max(size, 1) - 1, a + max(size, 1)):
+                        x = st + (target - rel)
+                        if st <= x < en and rng.chance(1, 2):
+                            frames_pool.append("a%x" % x)
+                            frames_pool.append("r%x" % (x + 1))
         stacks_pool = []
         times = {}
         for _ in range(rng.range(5, 60)):
